@@ -65,8 +65,9 @@ def coq_term(case, obs):
     if o is None:
         return "false"
     h = D.history_term(case)
-    return "lobs_eqb (run_hist %s) %s && Bool.eqb (finding_C19_a %s) %s && Bool.eqb (finding_C18_a %s) %s" % (
-        h, o, h, D.cb(O.stop_raise(case, obs)), h, D.cb(O.sharing(case, obs)))
+    return ("lobs_eqb (run_hist %s) %s && Bool.eqb (finding_C19_a %s) %s && Bool.eqb (finding_C18_a %s) %s "
+            "&& counts_eqb (final_counts %s) (%d, %d)" % (
+                h, o, h, D.cb(O.stop_raise(case, obs)), h, D.cb(O.sharing(case, obs)), h, obs["counts"][0], obs["counts"][1]))
 
 
 def _strip(ops):
